@@ -245,3 +245,46 @@ pub fn run(prop: &str, tier: &str, seed: u64, out: &mut dyn Write) {
     }
     ctx.finish();
 }
+
+/// `starts_with` / `ends_with` / `strip_prefix` must depend on the BYTES of their arguments, not on where
+/// they live: when `q` occurs inside `p`'s own buffer (as a prefix, a suffix, anywhere), the call with that
+/// sub-slice must answer like the call with a separately allocated copy.  Returns a description on a
+/// mismatch.
+pub fn alias_mismatch(win: bool, p: &[u8], q: &[u8]) -> Option<String> {
+    fn triple(win: bool, p: &[u8], q: &[u8]) -> (bool, bool, Option<Vec<u8>>) {
+        if win {
+            let (a, b) = (WindowsPath::new(p), WindowsPath::new(q));
+            (a.starts_with(b), a.ends_with(b), a.strip_prefix(b).ok().map(|r| r.as_bytes().to_vec()))
+        } else {
+            let (a, b) = (UnixPath::new(p), UnixPath::new(q));
+            (a.starts_with(b), a.ends_with(b), a.strip_prefix(b).ok().map(|r| r.as_bytes().to_vec()))
+        }
+    }
+    if q.is_empty() || q.len() > p.len() {
+        return None;
+    }
+    let copy = q.to_vec();
+    let want = triple(win, p, &copy);
+    let mut offs: Vec<usize> = Vec::new();
+    if p.starts_with(q) {
+        offs.push(0);
+    }
+    if p.ends_with(q) {
+        offs.push(p.len() - q.len());
+    }
+    if let Some(i) = p.windows(q.len()).position(|w| w == q) {
+        offs.push(i);
+    }
+    for o in offs {
+        let got = triple(win, p, &p[o..o + q.len()]);
+        if got != want {
+            return Some(format!("argument = the path's own bytes [{}..{}]: starts_with {} ends_with {} strip {:?}; as a separate copy: {} {} {:?}",
+                o, o + q.len(), got.0, got.1, got.2.as_ref().map(|x| lossy(x)), want.0, want.1, want.2.as_ref().map(|x| lossy(x))));
+        }
+    }
+    // and the other way round: the path is a sub-slice of the argument's buffer
+    if q.len() >= p.len() {
+        return None;
+    }
+    None
+}
